@@ -430,6 +430,11 @@ def generate(rng, index, tier):
         ts = rng.sample([0.5, 1.0, 2.0, 3.0, 4.5], rng.randint(1, 4))
         fdat = [[_vals(rng, 4, 0.3, 2.0) for _ in range(3)]
                 for _ in range(3)]
+        if rng.random() < 0.25 and len(ts) >= 2:
+            # one (output, time) cell that no individual was measured at
+            o_, t_ = rng.randrange(min(3, n_out)), rng.randrange(len(ts))
+            for ind_ in fdat:
+                ind_[o_][t_] = float('nan')
         user_filter = None
         if rng.random() < 0.6:
             # any of the filter classes, also a composite over two groups
